@@ -455,6 +455,19 @@ func (c *Ctx) toIface(v Value) string {
 		// pointer-like: a nil pointer in an interface is still a non-nil interface
 		return fmt.Sprintf("(mkval %d %s fpzero emptystr false)", tag, v.S)
 	}
+	if strings.HasPrefix(srt, "(_ BitVec") {
+		// bv mode: the payload of an interface value stays a mathematical integer
+		bits, signed := intInfo(v.T)
+		if bits == 0 {
+			bits, signed = 64, true
+		}
+		n := sx("bv2nat", v.S)
+		if signed {
+			p := new(big.Int).Lsh(big.NewInt(1), uint(bits)).String()
+			n = sIte(sx("bvslt", v.S, bvLit(0, bits)), sx("-", n, p), n)
+		}
+		return fmt.Sprintf("(mkval %d %s fpzero emptystr false)", tag, n)
+	}
 	box, _ := c.boxFns(v.T)
 	return fmt.Sprintf("(mkval %d (%s %s) fpzero emptystr false)", tag, box, v.S)
 }
@@ -479,6 +492,13 @@ func (c *Ctx) fromIface(s string, t types.Type) string {
 	srt := c.sortOf(t)
 	if srt == "Int" {
 		return sx("vint", s)
+	}
+	if strings.HasPrefix(srt, "(_ BitVec") {
+		bits, _ := intInfo(t)
+		if bits == 0 {
+			bits = 64
+		}
+		return fmt.Sprintf("((_ int2bv %d) (vint %s))", bits, s)
 	}
 	_, unbox := c.boxFns(t)
 	return sx(unbox, sx("vint", s))
